@@ -191,7 +191,9 @@ def run_solver_once(text: str, backend: str, timeout: float, tag: str = "q") -> 
         os.unlink(path)
     except OSError:
         pass
-    first = out.strip().splitlines()[0].strip() if out.strip() else ""
+    # the verdict is the first line that is exactly sat / unsat / unknown (cvc5 may print a warning such as
+    # "No set-logic command was given" before it)
+    first = next((ln.strip() for ln in out.splitlines() if ln.strip() in ("sat", "unsat", "unknown")), "")
     if first == "unsat":
         return SmtResult("unsat", backend, dt, raw=out)
     if first == "sat":
